@@ -64,6 +64,11 @@ def clone_val(v, memo):
             n = object.__new__(type(v)); n.__dict__.update(v.__dict__); memo[id(v)] = n      # keeps subclass fields (markers, grids)
             n.attrs = {k: clone_val(e, memo) for k, e in v.attrs.items()}
         return n
+    if type(v) in (tuple, list) and v and not isinstance(v[0], str):
+        # plain sequences (star-args, literal tuples of buffers) may hold mutable containers
+        new = [clone_val(e, memo) for e in v]
+        if all(a is b for a, b in zip(new, v)): return v
+        return tuple(new) if isinstance(v, tuple) else new
     return v
 
 
@@ -236,6 +241,7 @@ class Interp:
         s.call_log.append((fn.key, args, kwargs, callnode))
         fst = St()
         fst.events = st.events
+        fst.under = list(getattr(st, "under", []))
         fst.atom_eq = dict(st.atom_eq)
         fst.ranges = dict(st.ranges)
         genv = St(); genv.env = {}
@@ -906,6 +912,11 @@ def _carry_effects(s_ret, s_cont, cond, pol_ret):
             c_cont.stores.insert(pos + k, (rec + (("under", cond, pol_ret),)) if rec[0] != "opaque" else rec)
     if wrote:
         s_cont.under = list(getattr(s_cont, "under", [])) + [(cond, not pol_ret)]
+    else:
+        # the rest of the function runs only when the early return was not taken: whatever it stores into arrays that already exist
+        # (the caller's buffers) happens under that condition; arrays allocated later are private to this path and need no mark
+        live = frozenset(c.ident for c in s_cont._memo.values() if isinstance(c, LocalArr))
+        if live: s_cont.under = list(getattr(s_cont, "under", [])) + [(cond, not pol_ret, live)]
 
 
 def _adopt(st, other):
